@@ -219,6 +219,62 @@ func GenC02(rng *rand.Rand, thorough bool, emit func(*Sx)) {
 			}
 		}
 	}
+	// A read that fails inside the message (finding F30).  A read deadline that has expired stays expired
+	// until the command loop arms it again; on a scripted connection that is a failure that REPEATS: the
+	// backend's read fails, then the server's drain of the rest of the message fails.  The end of the
+	// message has not been reached, so the connection must be closed after the final reply - the rest of
+	// the message (here: bait lines, the end marker and two commands, delivered after the failures) must
+	// not be run as commands.  A single failure seen by the backend is survived: the drain goes on
+	// reading, finds the end marker, and commands resume exactly behind it.  (The same over a real socket
+	// with a real deadline: kind tmo.)
+	for _, m := range modes {
+		for _, kind := range []RawKind{RawTimeout, RawErr} {
+			for _, nfail := range []int{1, 2, 3} {
+				for _, stop := range []int64{-1, 3} {
+					cfg := DefaultCfg()
+					cfg.LMTP, cfg.LMTPSession = m.lmtp, m.sess
+					f := newF(cfg)
+					f.hello()
+					f.cmd("MAIL FROM:<s@ok>", 250)
+					f.cmd("RCPT TO:<r0@ok>", 250)
+					f.cmd("DATA", 354)
+					p := DefaultPlan()
+					p.Stop = stop
+					if stop >= 0 {
+						p.Sizes = []int{int(stop)} // reads its octets and accepts; the failure hits the drain
+					}
+					f.script.Data = []DataPlan{p}
+					f.raw("first line\r\n")
+					k := len(f.out)
+					f.raw("MAIL FROM:<bait@evil>\r\nRCPT TO:<bait@evil>\r\n.\r\n")
+					final := 554
+					if stop >= 0 {
+						final = 250
+					}
+					f.expect(final)
+					// the drain fails when a failure is left for it
+					closes := nfail >= 2 || stop >= 0
+					if closes {
+						f.cmd("MAIL FROM:<after@ok>")
+						f.cmd("QUIT")
+						f.add(L(A("must-not-mail"), XS("after@ok")))
+						f.add(L(A("expect-last"), Num(int64(final))))
+					} else {
+						f.cmd("MAIL FROM:<after@ok>", 250)
+						f.cmd("QUIT", 221)
+						f.add(L(A("must-mail"), XS("after@ok")))
+					}
+					f.add(L(A("must-not-mail"), XS("bait@evil")))
+					raws := []Raw{{Kind: RawData, Data: append([]byte(nil), f.out[:k]...)}}
+					for i := 0; i < nfail; i++ {
+						raws = append(raws, Raw{Kind: kind})
+					}
+					raws = append(raws, Raw{Kind: RawData, Data: append([]byte(nil), f.out[k:]...)}, rawEOF)
+					emit(RunConv(f.caseOf("C02", raws)))
+				}
+			}
+		}
+	}
 }
 
 var c05Payloads = []string{
@@ -383,6 +439,71 @@ func GenC05(rng *rand.Rand, thorough bool, emit func(*Sx)) {
 						}
 						emit(RunConv(f.caseOf("C05", segStream(rng, f.out, f.cuts, mode, rawEOF))))
 					}
+				}
+			}
+		}
+	}
+	// A read that fails inside a chunk (finding F30; see GenC02).  An accepted chunk is read twice - the
+	// copy to the backend, then the discard of what is left - so one failure is survived (the discard
+	// skips the rest of the declared octets and commands resume behind them), a repeated one is not: the
+	// declared octets could not be skipped and the connection must be closed after the reply.  A refused
+	// chunk is read once: any failure inside it closes the connection.
+	for _, st := range []string{"ok", "lmtp", "lmtpsess", "nomail", "badlast", "over"} {
+		for _, kind := range []RawKind{RawTimeout, RawErr} {
+			for _, nfail := range []int{1, 2, 3} {
+				for _, last := range []bool{true, false} {
+					cfg := DefaultCfg()
+					cfg.LMTP = st == "lmtp" || st == "lmtpsess"
+					cfg.LMTPSession = st == "lmtpsess"
+					payload := "first part\r\nMAIL FROM:<chunk@evil>\r\nRCPT TO:<chunk@evil>\r\n"
+					if st == "over" {
+						cfg.MaxBytes = 10
+					}
+					f := newF(cfg)
+					f.hello()
+					if st != "nomail" {
+						f.cmd("MAIL FROM:<s@ok>", 250)
+						f.cmd("RCPT TO:<r0@ok>", 250)
+					}
+					arg := ""
+					if last {
+						arg = " LAST"
+					}
+					code := 554
+					refused := true
+					switch st {
+					case "nomail":
+						code = 502
+					case "badlast":
+						code, arg = 501, " LOST"
+					case "over":
+						code = 552
+					default:
+						refused = false
+					}
+					f.cmd(fmt.Sprintf("BDAT %d%s", len(payload), arg), code)
+					f.raw(payload[:12])
+					k := len(f.out)
+					f.raw(payload[12:])
+					closes := nfail >= 2 || refused
+					if closes {
+						f.cmd("MAIL FROM:<after@ok>")
+						f.cmd("QUIT")
+						f.add(L(A("must-not-mail"), XS("after@ok")))
+						f.add(L(A("expect-last"), Num(int64(code))))
+					} else {
+						f.cmd("MAIL FROM:<after@ok>", 250)
+						f.cmd("QUIT", 221)
+						f.add(L(A("must-mail"), XS("after@ok")))
+					}
+					f.add(L(A("must-not-mail"), XS("chunk@evil")))
+					f.add(L(A("forbid-eof")))
+					raws := []Raw{{Kind: RawData, Data: append([]byte(nil), f.out[:k]...)}}
+					for i := 0; i < nfail; i++ {
+						raws = append(raws, Raw{Kind: kind})
+					}
+					raws = append(raws, Raw{Kind: RawData, Data: append([]byte(nil), f.out[k:]...)}, rawEOF)
+					emit(RunConv(f.caseOf("C05", raws)))
 				}
 			}
 		}
@@ -1525,8 +1646,9 @@ func GenC19(rng *rand.Rand, thorough bool, emit func(*Sx)) {
 		f.add(L(A("expect-last"), Num(500)))
 		emit(RunConv(f.caseOf("C19", segStream(rng, f.out, nil, 3, rawEOF))))
 	}
-	// (b2) a refused BDAT whose chunk stalls (read timeout inside the discarded octets): the line
-	// limit must be armed again afterwards
+	// (b2) a refused BDAT whose chunk stalls (a read fails inside the discarded octets): the rest of the
+	// chunk cannot be skipped, so the connection is closed after the refusal; neither the over-long line
+	// nor the command behind it is looked at
 	for _, kind := range []RawKind{RawTimeout, RawErr} {
 		for _, pre := range []int{0, 1, 2} {
 			cfg := DefaultCfg()
@@ -1541,10 +1663,10 @@ func GenC19(rng *rand.Rand, thorough bool, emit func(*Sx)) {
 			f.cmd("BDAT 50", 502)
 			f.raw("0123456789")
 			k := len(f.out)
-			f.cmd("NOOP "+strings.Repeat("z", 300), 500)
+			f.cmd("NOOP " + strings.Repeat("z", 300))
 			f.raw("MAIL FROM:<late@x>\r\n")
 			f.add(L(A("must-not-mail"), XS("late@x")))
-			f.add(L(A("expect-last"), Num(500)))
+			f.add(L(A("expect-last"), Num(502)))
 			raws := []Raw{{Kind: RawData, Data: append([]byte(nil), f.out[:k]...)}, {Kind: kind},
 				{Kind: RawData, Data: append([]byte(nil), f.out[k:]...)}, rawEOF}
 			emit(RunConv(f.caseOf("C19", raws)))
